@@ -45,6 +45,8 @@ LAYOUTS = {
     "1d-sorted": (np.array([0.0, 0.0, 1.0, 1.0, 2.0, 2.0]), None, [((6,),), ((2, 2, 2),), ((3, 3),)]),
     "1d-9blocks": (np.array([0.0, 1.0, 0.0, 1.0, 0.0, 1.0, 0.0, 1.0, 2.0]), None, [((1,) * 9,)]),
     "1d-none-present": (np.array([7.0, 8.0, 7.0, 8.0, 7.0, 8.0]), None, [((6,),), ((2, 2, 2),)]),
+    # labels 0 and 1 share three of their four blocks (containment 0.75): the planner merges them into one cohort
+    "1d-merged-cohorts": (np.array([0.0, 0, 0, 1, 0, 1, 0, 1, 1, 1, 2, 2, 2, 2, 3, 3, 3, 3, 3, 3]), None, [((2,) * 10,)]),
     "2d": (np.array([[0.0, 1.0, 0.0], [1.0, NAN, 2.0]]), None, [((2,), (3,)), ((1, 1), (3,)), ((2,), (1, 2)), ((1, 1), (1, 1, 1))]),
     "2d-last": (np.array([[0.0, 1.0, 0.0], [1.0, NAN, 2.0]]), -1, [((2,), (3,)), ((1, 1), (3,)), ((2,), (1, 2))]),
     "3d": (np.array([[[0.0, 1.0], [1.0, 0.0]], [[2.0, NAN], [0.0, 1.0]]]), None, [((2,), (2,), (2,)), ((1, 1), (2,), (2,)), ((2,), (1, 1), (1, 1))]),
@@ -68,7 +70,7 @@ def shards(tier, seed):
 
 def values_for(shape, func):
     n = int(np.prod(shape))
-    base = np.array([1.0, -2.0, 3.5, NAN, 0.5, -7.0, 4.0, 2.0, -1.0, 6.0, 0.25, 9.0, -3.0, 8.0, 5.0, -4.0] * 2)[:n].reshape(shape)
+    base = np.array([1.0, -2.0, 3.5, NAN, 0.5, -7.0, 4.0, 2.0, -1.0, 6.0, 0.25, 9.0, -3.0, 8.0, 5.0, -4.0] * 3)[:n].reshape(shape)
     if func == "any":
         return np.nan_to_num(base) > 0
     if func == "argmax":
